@@ -336,6 +336,28 @@ class Summaries:
         m = re.match(r"^(?:rpds::)?RedBlackTreeMap::(\w+)$", n)
         if m:
             return self.pmap(st, m.group(1), A, name)
+        m = re.match(r"^<Map<rpds::vector::IterPtr<.*> as Iterator>::(nth|next)$", n)
+        if m:
+            itv = self.deref_val(st, A[0]) if isinstance(A[0], Ref) else A[0]
+            if isinstance(itv, Struct) and itv.ty == "SliceIter":
+                return self.slice_iter(st, n, m.group(1), A)
+        m = re.match(r"^<Map<rpds::map::red_black_tree_map::IterPtr<.*> as Iterator>::(nth)$", n)
+        if m:
+            it = self.deref_val(st, A[0]) if isinstance(A[0], Ref) else A[0]
+            if isinstance(it, Struct) and it.ty == "PMapIter":
+                # the n-th entry in key order of a map whose order is not modelled: present or absent, any entry
+                # (deterministic in map identity and index, so relational lemmas see the same entry twice)
+                tagn = "%s[%s]" % (canon(ex, it.fields[0]), z3.simplify(A[1].t))
+                has = z3.Bool("mapiter_has!" + tagn)
+                ch, cn = ex.feasible(st, has), ex.feasible(st, z3.Not(has))
+                oty = "Option<(&cell::Cell, &cell::Cell)>"
+                if ch and cn:
+                    raise_fork([(has, None, "entry present"), (z3.Not(has), None, "entry absent")])
+                if not ch:
+                    return self.option("(&cell::Cell, &cell::Cell)")
+                k = mk_sym(ex.tc, "cell::Cell", "mapiter_key!" + tagn)
+                v = mk_sym(ex.tc, "cell::Cell", "mapiter_val!" + tagn)
+                return self.mk_enum(oty, "Some", Tuple([Ref(Box(k, name="mapiter_k!" + tagn)), Ref(Box(v, name="mapiter_v!" + tagn))]))
         # ---------- short-circuit predicates over slice iterators (closure must evaluate without forking)
         m = re.match(r"^<(Rev<)?(?:std::slice::)?Iter(?:Mut)?<.*>>? as Iterator>::(any|all|position|find_map|find)::<", name.strip()) if False else \
             re.match(r"^<(Rev<)?(?:std::slice::)?Iter(?:Mut)?<.*?>>? as Iterator>::(any|all|find_map)$", n)
@@ -394,7 +416,9 @@ class Summaries:
         # ---------- formatting: produces opaque strings; never the subject of an E2 lemma
         if n == "format" or n.endswith("fmt::format") or n.startswith("core::fmt::rt::Argument::") or n.startswith("Arguments::") \
                 or n.startswith("core::fmt::Arguments::") or n.startswith("std::fmt::Arguments::"):
-            return self.opaque_fn(n.replace(":", "_"), A, "std::string::String" if n.endswith("format") else "fmt_arg")
+            # named after the call site (function + block), so two runs of the same code produce the same opaque text
+            site = "%s@%s" % (re.sub(r"[^A-Za-z0-9_]", "_", fr.fn.name)[-60:], fr.bb) if fr is not None else None
+            return self.opaque_fn(n.replace(":", "_"), A, "std::string::String" if n.endswith("format") else "fmt_arg", site=site)
 
         # ---------- pure, non-panicking str/String observers and builders: uninterpreted
         m = re.match(r"^core::str::(?:<impl str>::)?(len|as_bytes|is_empty|chars|char_indices|as_ptr|trim|bytes|to_owned|to_string)$", n)
@@ -434,7 +458,7 @@ class Summaries:
         raise Unsupported("no summary for external callee `%s`" % name)
 
     # ------------------------------------------------------------ pieces
-    def opaque_fn(self, fname, args, ret_ty):
+    def opaque_fn(self, fname, args, ret_ty, site=None):
         """Uninterpreted function application: deterministic in its arguments' terms."""
         ex = self.ex
         terms = []
@@ -448,7 +472,7 @@ class Summaries:
                 continue
             else:
                 # structured argument: fresh result (no functional consistency claimed)
-                return mk_sym(ex.tc, ret_ty, ex.fresh_name("uf_" + fname))
+                return mk_sym(ex.tc, ret_ty, ("uf_%s!%s" % (fname, site)) if site else ex.fresh_name("uf_" + fname))
         k, info = ex.tc.kind(ret_ty)
         if k == "int":
             rs = z3.BitVecSort(info[0])
@@ -548,6 +572,27 @@ class Summaries:
             return many(self.run_closure(st, A[1], []), lambda e: self.mk_enum("Result<%s, E>" % targs[0], "Err", e))
         if meth == "ok":
             return self.option(targs[0], val) if good else self.option(targs[0])
+        if meth == "filter" and is_opt:
+            if not good:
+                return o
+            alts = self.run_closure(st, A[1], [Ref(Box(val, name=ex.fresh_name("filter_arg")))])
+            outs = []
+            for s2, keep in alts:
+                kt = z3.simplify(keep.t)
+                if z3.is_true(kt):
+                    outs.append((s2, o))
+                elif z3.is_false(kt):
+                    outs.append((s2, self.option(targs[0])))
+                else:
+                    ck, cd = ex.feasible(s2, kt), ex.feasible(s2, z3.Not(kt))
+                    if ck and cd:
+                        s3 = s2.fork()
+                        s2.pc.append(kt)
+                        s3.pc.append(z3.Not(kt))
+                        outs += [(s2, o), (s3, self.option(targs[0]))]
+                    else:
+                        outs.append((s2, o if ck else self.option(targs[0])))
+            return Multi(outs)
         if meth == "map":
             if not good:
                 if is_opt:
@@ -732,6 +777,8 @@ class Summaries:
             return self.vec_method(st, None, "Vec::last", "Vec::last", [recv])
         if meth == "get":
             return self.vec_method(st, None, "Vec::get", "Vec::get", [recv, A[1]])
+        if meth == "iter" and isinstance(recv, Ref):
+            return self.vec_method(st, None, "Vec::iter", "Vec::iter", [recv])
         if meth in ("drop_last", "drop_last_mut"):
             tgt = v if meth.endswith("_mut") else clone_val(v)
             if not tgt.items:
@@ -775,6 +822,8 @@ class Summaries:
                     raise Unsupported("map key equality undetermined")
                 out.append((k, v))
             return out
+        if meth == "iter":
+            return Struct("PMapIter", {0: m0})
         if meth in ("insert", "insert_mut"):
             tgt = m0 if meth == "insert_mut" else clone_val(m0)
             tgt.entries = drop_key(tgt.entries) + [(key, A[2])]
@@ -1009,6 +1058,16 @@ class Summaries:
             raise Unsupported("iterator value %r" % (itv,))
         svr = itv.fields[0]
         sv = ex.get_at(st, svr.box, svr.path)
+        # fresh_iter.nth(k) over a whole vector == get(k): also fine for a vector with a symbolic part
+        if meth == "nth" and not reversed_ and itv.fields[1] == 0 and itv.fields[2] == 0:
+            whole = sv if isinstance(sv, Vec) else (sv if sv.whole else None)
+            if whole is not None and ((isinstance(sv, Vec) and sv.prefix is not None) or (not isinstance(sv, Vec) and sv.whole)):
+                base = svr if isinstance(sv, Vec) else sv.base
+                res = self.vec_method(st, None, "Vec::get", "Vec::get", [base, A[1]])      # may fork: mutate only afterwards
+                itv.fields[1] = -1        # consumed: any further use of this iterator is refused below
+                return res
+        if itv.fields[1] == -1:
+            raise Unsupported("iterator reused after nth over a symbolic vector")
         if isinstance(sv, Vec):
             base_v, base_r, start, end = sv, svr, 0, None
             if sv.prefix is not None:
